@@ -559,11 +559,11 @@ TAMPERS = ["n:{k}:1", "n:{k}:-1", "n:{k}:0", "rm:{k}", "nofn:{k}", "rid:{k}:_x",
            "range:{k}:0:-1", "range:{k}:-1:1", "nochunks"]
 
 
-def exhaustive_cases():
-    """all chunkings (<= 3 interior cuts, plus duplicated cuts) of every run of <= 3 rows on a stretched grid,
+def exhaustive_cases(max_rows=3):
+    """all chunkings (<= 3 interior cuts, plus duplicated cuts) of every run of <= max_rows rows on a stretched grid,
     rechunk off and on with targets 1 and 2"""
     out = []
-    for rows in gen.all_sorted_rows(3, 3):
+    for rows in gen.all_sorted_rows(max_rows, 3):
         rows = [(2000 * a, 2000 * a + 700 * (b - a), i) for a, b, i in rows]
         if not rows:
             continue
@@ -626,7 +626,8 @@ def run(ctx):
        "(targets 1..6 rows) x serial/thread-pool saver x serial/thread-pool loader; plus runs of 520..700 rows; non-trivial = >= 2 chunks and >= 2 rows")
 
     # 2. exhaustive chunkings of tiny runs
-    ex = exhaustive_cases()
+    max_rows = ctx.pick(3, 4)
+    ex = exhaustive_cases(max_rows)
     n_all = len(ex)
     cases = []
     for j, (parts, rechunk, target) in enumerate(ex):
@@ -634,7 +635,7 @@ def run(ctx):
                           run_id="r", data_type="d", kind="k", hdr_target=target, tamper="none", expect="valid",
                           chunks=[raw(a, b, rs, target) for a, b, rs in parts]))
     go("saveload/exhaustive", cases,
-       f"every run of 1..3 positive-duration rows on a stretched 0..3 grid (2000 ns steps, 700 ns rows) x every chunking with <= 3 admissible interior cuts "
+       f"every run of 1..{max_rows} positive-duration rows on a stretched 0..3 grid (2000 ns steps, 700 ns rows) x every chunking with <= 3 admissible interior cuts "
        f"+ duplicated cuts x (rechunk off | rechunk on with target 1, 2) = {n_all} cases",
        exhaustive=True)
 
